@@ -1,2 +1,700 @@
+//! C15 – by-value array and aggregate APIs move out every element exactly once.
+//! (ArrayConsumer / ArrayBuilder histories, map_!/from_fn_!, hand-written destructure! shapes;
+//!  the full destructure! shape matrix is in the generated programs, gen/gen_c15.py)
 use crate::common::*;
-pub fn run(_cfg: &Cfg) -> (&'static str, Report, String, String) { ("C15", Report::new(), String::new(), String::new()) }
+use crate::ledger::{self, audit, take_log, Ev, Tok};
+use konst::array::{ArrayBuilder, ArrayConsumer};
+use std::collections::VecDeque;
+use std::mem::ManuallyDrop;
+
+#[derive(Clone, Copy, Debug, PartialEq)]
+pub enum Op {
+    Next,
+    NextBack,
+    AsSlice,
+    MutReplace,
+    CloneDrop,
+    CloneSwitch,
+    Push,
+    LenFull,
+}
+#[derive(Clone, Copy, Debug, PartialEq)]
+pub enum End {
+    Drop,
+    AssertEmpty,
+    Forget,
+    Build,
+}
+
+const COPS: [Op; 6] = [Op::Next, Op::NextBack, Op::AsSlice, Op::MutReplace, Op::CloneDrop, Op::CloneSwitch];
+const BOPS: [Op; 6] = [Op::Push, Op::AsSlice, Op::MutReplace, Op::LenFull, Op::CloneDrop, Op::CloneSwitch];
+
+fn ids(s: &[Tok]) -> Vec<u32> {
+    s.iter().map(|t| t.id).collect()
+}
+
+fn finish(r: &mut Report, sig: &'static str, desc: &dyn Fn() -> String, panicked_path: bool) {
+    let log = take_log();
+    let a = audit(&log);
+    r.count("ledger:created", a.created as u64);
+    r.count("ledger:dropped", a.dropped as u64);
+    r.count("ledger:received", a.received as u64);
+    if !a.clean(panicked_path) {
+        r.fail(
+            sig,
+            "ledger",
+            desc(),
+            format!("double_drops={:?} leaked={:?} unknown_drops={:?} double_received={:?} corrupt={:?}", a.double_drops, a.leaked, a.unknown_drops, a.double_received, a.corrupt),
+            "every element handed out or dropped exactly once, bit-for-bit intact".into(),
+        );
+    }
+}
+
+/// one ArrayConsumer history
+fn consumer_history<const N: usize>(r: &mut Report, ops: &[Op], end: End) {
+    let _ = take_log();
+    let desc = || format!("ArrayConsumer<Tok,{}> ops={:?} end={:?}", N, ops, end);
+    if std::env::var_os("KV_TRACE").is_some() {
+        eprintln!("TRACE {}", desc());
+    }
+    let arr: [Tok; N] = core::array::from_fn(|i| Tok::new(i as u32));
+    let mut model: VecDeque<u32> = (0..N as u32).collect();
+    // held in ManuallyDrop: a panic anywhere in this history must not run a possibly broken Drop impl
+    let mut c = ManuallyDrop::new(ArrayConsumer::new(arr));
+    let mut held: Vec<Tok> = Vec::new();
+    let mut fresh = 100u32;
+    let mut bad = false;
+    for (k, &op) in ops.iter().enumerate() {
+        let what = || format!("{} at op #{} ({:?})", desc(), k, op);
+        match op {
+            Op::Next | Op::NextBack => {
+                let front = op == Op::Next;
+                let cref = &mut *c;
+                let g = catch(move || if front { cref.next() } else { cref.next_back() });
+                r.ev(if front { "consumer.next" } else { "consumer.next_back" });
+                let want = if front { model.pop_front() } else { model.pop_back() };
+                match g {
+                    Err(()) => {
+                        r.fail("C15:consumer-panicked", "ArrayConsumer", what(), "<panic>".into(), format!("{:?}", want));
+                        bad = true;
+                    }
+                    Ok(g) => {
+                        let g = g.map(|md| ManuallyDrop::into_inner(md).received());
+                        let gid = g.as_ref().map(|t| t.id);
+                        if gid != want {
+                            r.fail("C15:consumer-wrong-element", "ArrayConsumer", what(), format!("{:?}", gid), format!("{:?}", want));
+                            bad = true;
+                        }
+                        if let Some(t) = g {
+                            if !t.intact() {
+                                r.fail("C15:element-not-intact", "ArrayConsumer", what(), format!("{:?}", t.id), "bit-for-bit unchanged".into());
+                            }
+                            held.push(t);
+                        }
+                    }
+                }
+            }
+            Op::AsSlice => {
+                r.ev("consumer.as_slice");
+                let cref = &*c;
+                match catch(|| ids(cref.as_slice())) {
+                    Ok(g) => {
+                        let w: Vec<u32> = model.iter().copied().collect();
+                        if g != w || !c.as_slice().iter().all(|t| t.intact()) {
+                            r.fail("C15:consumer-as_slice", "ArrayConsumer", what(), format!("{:?}", g), format!("{:?}", w));
+                            bad = true;
+                        }
+                    }
+                    Err(()) => {
+                        r.fail("C15:consumer-panicked", "ArrayConsumer", what(), "<panic>".into(), "slice".into());
+                        bad = true;
+                    }
+                }
+            }
+            Op::MutReplace => {
+                r.ev("consumer.as_mut_slice");
+                let cref = &mut *c;
+                let f = fresh;
+                let res = catch(move || {
+                    let s = cref.as_mut_slice();
+                    let n = s.len();
+                    if let Some(last) = s.last_mut() {
+                        *last = Tok::new(f); // the old element is dropped here, once
+                    }
+                    n
+                });
+                match res {
+                    Ok(n) => {
+                        if n != model.len() {
+                            r.fail("C15:consumer-as_mut_slice", "ArrayConsumer", what(), format!("len {}", n), format!("len {}", model.len()));
+                            bad = true;
+                        }
+                        if n > 0 {
+                            *model.back_mut().unwrap() = fresh;
+                            fresh += 1;
+                        }
+                    }
+                    Err(()) => {
+                        r.fail("C15:consumer-panicked", "ArrayConsumer", what(), "<panic>".into(), "slice".into());
+                        bad = true;
+                    }
+                }
+            }
+            Op::CloneDrop | Op::CloneSwitch => {
+                r.ev("consumer.clone");
+                let before = ledger::log_len();
+                let cref = &*c;
+                let c2 = match catch(|| ManuallyDrop::new(cref.clone())) {
+                    Ok(x) => x,
+                    Err(()) => {
+                        r.fail("C15:consumer-panicked", "ArrayConsumer", what(), "<panic in clone>".into(), "a clone".into());
+                        bad = true;
+                        break;
+                    }
+                };
+                let cloned = ids(c2.as_slice());
+                // the clone holds clones of exactly the live middle, in order
+                let log = ledger_tail(before);
+                let froms: Vec<u32> = log.iter().filter_map(|e| if let Ev::Cloned { from, .. } = e { Some(*from) } else { None }).collect();
+                let w: Vec<u32> = model.iter().copied().collect();
+                if froms != w || cloned.len() != w.len() {
+                    r.fail("C15:consumer-clone", "ArrayConsumer", what(), format!("cloned from {:?} -> {:?}", froms, cloned), format!("clones of {:?}", w));
+                    bad = true;
+                    std::mem::forget(c2);
+                    break;
+                }
+                if op == Op::CloneDrop {
+                    if catch(move || drop(ManuallyDrop::into_inner(c2))).is_err() {
+                        r.fail("C15:consumer-panicked", "ArrayConsumer", what(), "<panic in drop>".into(), "drop".into());
+                        bad = true;
+                    }
+                } else {
+                    let old = std::mem::replace(&mut c, c2);
+                    if catch(move || drop(ManuallyDrop::into_inner(old))).is_err() {
+                        r.fail("C15:consumer-panicked", "ArrayConsumer", what(), "<panic in drop>".into(), "drop".into());
+                        bad = true;
+                    }
+                    model = cloned.into_iter().collect();
+                }
+            }
+            _ => unreachable!(),
+        }
+        if bad {
+            break;
+        }
+    }
+    let mut panicked = false;
+    if bad {
+        // state unknown after a failure: leak rather than risk a crash (c is ManuallyDrop)
+        std::mem::forget(held);
+        let _ = take_log();
+        return;
+    }
+    match end {
+        End::Drop => {
+            if catch(move || drop(ManuallyDrop::into_inner(c))).is_err() {
+                r.fail("C15:consumer-panicked", "ArrayConsumer", desc(), "<panic in drop>".into(), "drop".into());
+                std::mem::forget(held);
+                let _ = take_log();
+                return;
+            }
+        }
+        End::AssertEmpty => {
+            r.ev("consumer.assert_is_empty");
+            let g = catch(move || ManuallyDrop::into_inner(c).assert_is_empty());
+            if g.is_err() != !model.is_empty() {
+                r.fail("C15:assert_is_empty", "ArrayConsumer", desc(), format!("panicked={}", g.is_err()), format!("panicked={}", !model.is_empty()));
+            }
+            panicked = g.is_err();
+        }
+        End::Forget => {
+            // only generated for histories that emptied the consumer: nothing may be left to leak
+            // (c is already ManuallyDrop: not dropping it *is* mem::forget)
+            let _ = c;
+        }
+        End::Build => unreachable!(),
+    }
+    drop(held);
+    // note: a panicking assert_is_empty still drops the consumer during unwinding, so even that path is leak-free today;
+    // the property exempts panicking paths from the leak clause, and so does the monitor
+    finish(r, "C15:consumer-ledger", &desc, panicked);
+}
+
+fn ledger_tail(from: usize) -> Vec<Ev> {
+    ledger::tail(from)
+}
+
+/// one ArrayBuilder history; `c11` selects the C11 oracle wording for the signatures
+pub fn builder_history<const N: usize>(r: &mut Report, ops: &[Op], end: End, c11: bool) {
+    let _ = take_log();
+    let desc = || format!("ArrayBuilder<Tok,{}> ops={:?} end={:?}", N, ops, end);
+    let sig = |c15: &'static str, c11s: &'static str| if c11 { c11s } else { c15 };
+    let mut b: ArrayBuilder<Tok, N> = ArrayBuilder::new();
+    let mut model: Vec<u32> = Vec::new();
+    let mut next_id = 0u32;
+    let mut fresh = 100u32;
+    let mut bad = false;
+    for (k, &op) in ops.iter().enumerate() {
+        let what = || format!("{} at op #{} ({:?})", desc(), k, op);
+        match op {
+            Op::Push => {
+                r.ev("builder.push");
+                let id = next_id;
+                next_id += 1;
+                let bref = &mut b;
+                let g = catch(move || bref.push(Tok::new(id)));
+                let must_panic = model.len() >= N;
+                if g.is_err() != must_panic {
+                    r.fail(sig("C15:builder-push", "C11:builder-push"), "ArrayBuilder", what(), format!("panicked={}", g.is_err()), format!("panicked={} (pushing onto a full builder must panic)", must_panic));
+                    bad = true;
+                }
+                if g.is_ok() {
+                    model.push(id);
+                }
+            }
+            Op::AsSlice => {
+                r.ev("builder.as_slice");
+                let g = ids(b.as_slice());
+                if g != model || !b.as_slice().iter().all(|t| t.intact()) {
+                    r.fail(sig("C15:builder-as_slice", "C11:builder-as_slice"), "ArrayBuilder", what(), format!("{:?}", g), format!("{:?}", model));
+                    bad = true;
+                }
+            }
+            Op::MutReplace => {
+                r.ev("builder.as_mut_slice");
+                let s = b.as_mut_slice();
+                if s.len() != model.len() {
+                    r.fail(sig("C15:builder-as_mut_slice", "C11:builder-as_mut_slice"), "ArrayBuilder", what(), format!("len {}", s.len()), format!("len {}", model.len()));
+                    bad = true;
+                } else if let Some(first) = s.first_mut() {
+                    *first = Tok::new(fresh);
+                    model[0] = fresh;
+                    fresh += 1;
+                }
+            }
+            Op::LenFull => {
+                r.ev("builder.len/is_full");
+                if b.len() != model.len() || b.is_full() != (model.len() == N) {
+                    r.fail(sig("C15:builder-len", "C11:builder-len"), "ArrayBuilder", what(), format!("len={} is_full={}", b.len(), b.is_full()), format!("len={} is_full={}", model.len(), model.len() == N));
+                    bad = true;
+                }
+            }
+            Op::CloneDrop | Op::CloneSwitch => {
+                r.ev("builder.clone");
+                let before = ledger::log_len();
+                let b2 = b.clone();
+                let cloned = ids(b2.as_slice());
+                let log = ledger_tail(before);
+                let froms: Vec<u32> = log.iter().filter_map(|e| if let Ev::Cloned { from, .. } = e { Some(*from) } else { None }).collect();
+                if froms != model || cloned.len() != model.len() {
+                    r.fail(sig("C15:builder-clone", "C11:builder-clone"), "ArrayBuilder", what(), format!("cloned from {:?} -> {:?}", froms, cloned), format!("clones of {:?}", model));
+                    bad = true;
+                }
+                if op == Op::CloneDrop {
+                    drop(b2);
+                } else {
+                    let old = std::mem::replace(&mut b, b2);
+                    drop(old);
+                    model = cloned;
+                }
+            }
+            _ => unreachable!(),
+        }
+        if bad {
+            break;
+        }
+    }
+    if bad {
+        std::mem::forget(b);
+        let _ = take_log();
+        return;
+    }
+    let mut panicked = false;
+    match end {
+        End::Drop => drop(b),
+        End::Build => {
+            r.ev(if model.len() == N { "builder.build:full" } else { "builder.build:not-full" });
+            let g = catch(move || b.build());
+            match g {
+                Ok(arr) => {
+                    let g = ids(&arr);
+                    if model.len() != N {
+                        r.fail(sig("C15:builder-build-returned-partial-array", "C11:builder-build-returned-partial-array"), "ArrayBuilder", desc(), format!("returned {:?} after {} pushes", g, model.len()), "panic (not fully initialised)".into());
+                        std::mem::forget(arr);
+                        let _ = take_log();
+                        return;
+                    }
+                    if g != model || !arr.iter().all(|t| t.intact()) {
+                        r.fail(sig("C15:builder-build-order", "C11:builder-build-order"), "ArrayBuilder", desc(), format!("{:?}", g), format!("{:?}", model));
+                    }
+                    drop(arr);
+                }
+                Err(()) => {
+                    panicked = true;
+                    if model.len() == N {
+                        r.fail(sig("C15:builder-build-panicked", "C11:builder-build-panicked"), "ArrayBuilder", desc(), "<panic>".into(), format!("{:?}", model));
+                    }
+                }
+            }
+        }
+        _ => unreachable!(),
+    }
+    finish(r, sig("C15:builder-ledger", "C11:builder-ledger"), &desc, panicked);
+}
+
+fn all_seqs(alpha: &[Op], maxlen: usize) -> Vec<Vec<Op>> {
+    let mut out = vec![vec![]];
+    let mut prev: Vec<Vec<Op>> = vec![vec![]];
+    for _ in 0..maxlen {
+        let mut cur = Vec::with_capacity(prev.len() * alpha.len());
+        for p in &prev {
+            for a in alpha {
+                let mut x = p.clone();
+                x.push(*a);
+                cur.push(x);
+            }
+        }
+        out.extend(cur.iter().cloned());
+        prev = cur;
+    }
+    out
+}
+
+fn takes(ops: &[Op]) -> usize {
+    ops.iter().filter(|o| matches!(o, Op::Next | Op::NextBack)).count()
+}
+
+fn consumer_histories(cfg: &Cfg) -> Report {
+    let maxn = cfg.by(2, 3, 4);
+    let extra = cfg.by(1, 3, 3);
+    let mut rep = Report::new();
+    macro_rules! forn {
+        ($($n:literal)*) => {$(
+            if $n <= maxn {
+                let seqs = all_seqs(&COPS, $n + extra);
+                rep.merge(par_for(cfg, seqs.len(), |i, r| {
+                    let ops = &seqs[i];
+                    consumer_history::<$n>(r, ops, End::Drop);
+                    consumer_history::<$n>(r, ops, End::AssertEmpty);
+                    if takes(ops) >= $n {
+                        consumer_history::<$n>(r, ops, End::Forget);
+                    }
+                    let t = takes(ops);
+                    if t >= 2 && ops.contains(&Op::Next) && ops.contains(&Op::NextBack) {
+                        r.nt(&("consumer", $n, format!("{:?}", ops)));
+                    }
+                    if i == 1500 { r.sample(|| format!("ArrayConsumer<Tok,{}> history {:?} x ends {{Drop, AssertEmpty, Forget-after-emptying}}", $n, ops)); }
+                }));
+            }
+        )*};
+    }
+    forn!(0 1 2 3 4);
+    rep
+}
+
+pub fn builder_histories(cfg: &Cfg, c11: bool) -> Report {
+    let maxn = cfg.by(2, 3, 4);
+    let extra = cfg.by(1, 3, 3);
+    let mut rep = Report::new();
+    macro_rules! forn {
+        ($($n:literal)*) => {$(
+            if $n <= maxn {
+                let seqs = all_seqs(&BOPS, $n + extra);
+                rep.merge(par_for(cfg, seqs.len(), |i, r| {
+                    let ops = &seqs[i];
+                    builder_history::<$n>(r, ops, End::Build, c11);
+                    builder_history::<$n>(r, ops, End::Drop, c11);
+                    let pushes = ops.iter().filter(|o| **o == Op::Push).count();
+                    if pushes >= 1 && pushes != $n {
+                        r.nt(&("builder", $n, format!("{:?}", ops)));
+                    }
+                    if i == 900 { r.sample(|| format!("ArrayBuilder<Tok,{}> history {:?} x ends {{Build, Drop}}", $n, ops)); }
+                }));
+            }
+        )*};
+    }
+    forn!(0 1 2 3 4);
+    rep
+}
+
+// ------------------------------------------------------------------ map_! / from_fn_! with the ledger
+
+fn map_by_value(cfg: &Cfg) -> Report {
+    let mut r = Report::new();
+    if !cfg.mine(0) {
+        return r;
+    }
+    macro_rules! forn {
+        ($($n:literal)*) => {$({
+            // plain mapping: every element moved through exactly once, order kept
+            let _ = take_log();
+            let arr: [Tok; $n] = core::array::from_fn(|i| Tok::new(i as u32));
+            let out: [(u32, Tok); $n] = konst::array::map_!(arr, |t| (t.id, t.received()));
+            r.ev("map_!:complete");
+            let g: Vec<u32> = out.iter().map(|x| x.1.id).collect();
+            if g != (0..$n as u32).collect::<Vec<_>>() || out.iter().any(|x| x.0 != x.1.id || !x.1.intact()) {
+                r.fail("C15:map_-order", "map_!", format!("N={}", $n), format!("{:?}", g), "0..N in order".into());
+            }
+            drop(out);
+            finish(&mut r, "C15:map_-ledger", &|| format!("map_! N={}", $n), false);
+            // from_fn_!
+            let _ = take_log();
+            let out: [Tok; $n] = konst::array::from_fn_!(|i| Tok::new(i as u32));
+            r.ev("from_fn_!:complete");
+            if ids(&out) != (0..$n as u32).collect::<Vec<_>>() {
+                r.fail("C15:from_fn_-order", "from_fn_!", format!("N={}", $n), format!("{:?}", ids(&out)), "0..N in order".into());
+            }
+            drop(out);
+            finish(&mut r, "C15:from_fn_-ledger", &|| format!("from_fn_! N={}", $n), false);
+            // closure panics at element k: no double drop (leak clause exempt on a panicking path)
+            for k in 0..$n as u32 {
+                let _ = take_log();
+                let arr: [Tok; $n] = core::array::from_fn(|i| Tok::new(i as u32));
+                let g = catch(move || {
+                    let out: [Tok; $n] = konst::array::map_!(arr, |t| { if t.id == k { panic!("closure panic") } t.received() });
+                    out
+                });
+                r.ev("map_!:closure-panics");
+                if g.is_ok() {
+                    r.fail("C15:map_-swallowed-panic", "map_!", format!("N={} k={}", $n, k), "returned an array".into(), "panic".into());
+                }
+                drop(g);
+                finish(&mut r, "C15:map_-panic-ledger", &|| format!("map_! N={} closure panics at element {}", $n, k), true);
+                r.nt(&("map_-panic", $n, k));
+            }
+            // non-local `return` at element k: a path that runs to completion -> nothing leaked, nothing dropped twice
+            for k in 0..$n as u32 {
+                let _ = take_log();
+                fn early<const M: usize>(arr: [Tok; M], k: u32) -> Option<[Tok; M]> {
+                    let out: [Tok; M] = konst::array::map_!(arr, |t| { if t.id == k { return None } t.received() });
+                    Some(out)
+                }
+                let arr: [Tok; $n] = core::array::from_fn(|i| Tok::new(i as u32));
+                let g = early::<$n>(arr, k);
+                r.ev("map_!:closure-returns");
+                if g.is_some() {
+                    r.fail("C15:map_-return-ignored", "map_!", format!("N={} k={}", $n, k), "returned an array".into(), "None from the enclosing fn".into());
+                }
+                drop(g);
+                finish(&mut r, "C15:map_-return-ledger", &|| format!("map_! N={} closure returns from the enclosing fn at element {}", $n, k), false);
+                r.nt(&("map_-return", $n, k));
+            }
+        })*};
+    }
+    forn!(0 1 2 3 5);
+    r
+}
+
+// ------------------------------------------------------------------ hand-written destructure! shapes (also the Miri subset)
+
+struct Braced {
+    a: Tok,
+    b: Tok,
+    c: Tok,
+}
+struct Tup(Tok, Tok, Tok);
+#[repr(C, packed)]
+struct Packed {
+    x: u8,
+    a: Tok,
+    y: u16,
+    b: Tok,
+}
+struct Gen<T, U> {
+    t: T,
+    u: U,
+    z: (),
+}
+
+fn destructure_shapes(cfg: &Cfg) -> Report {
+    let mut r = Report::new();
+    if !cfg.mine(0) {
+        return r;
+    }
+    macro_rules! case {
+        ($name:literal, $want_bind:expr, $want_immediate:expr, $body:block) => {{
+            let _ = take_log();
+            let bound: Vec<u32> = $body;
+            r.ev("destructure!");
+            let log = ledger::tail(0);
+            // elements matched by `_` / `..` must be dropped before the statement after the macro runs
+            let mark = log.iter().position(|e| *e == Ev::Mark("after")).unwrap_or(log.len());
+            let early: Vec<u32> = log[..mark].iter().filter_map(|e| if let Ev::Dropped(id) = e { Some(*id) } else { None }).collect();
+            let mut early_sorted = early.clone();
+            early_sorted.sort();
+            let want_bind: Vec<u32> = $want_bind;
+            let mut want_imm: Vec<u32> = $want_immediate;
+            want_imm.sort();
+            if bound != want_bind {
+                r.fail("C15:destructure-bindings", "destructure!", $name.into(), format!("{:?}", bound), format!("{:?}", want_bind));
+            }
+            if early_sorted != want_imm {
+                r.fail("C15:destructure-ignored-not-dropped-immediately", "destructure!", $name.into(), format!("dropped before the next statement: {:?}", early), format!("{:?}", want_imm));
+            }
+            finish(&mut r, "C15:destructure-ledger", &|| $name.to_string(), false);
+            r.nt(&$name);
+        }};
+    }
+    let t = |i: u32| Tok::new(i);
+    case!("Braced{a, b, c}", vec![0, 1, 2], vec![], {
+        let v = Braced { a: t(0), b: t(1), c: t(2) };
+        konst::destructure! {Braced{a, b, c} = v}
+        ledger::mark("after");
+        vec![a.received().id, b.received().id, c.received().id]
+    });
+    case!("Braced{a, b: _, c}", vec![0, 2], vec![1], {
+        let v = Braced { a: t(0), b: t(1), c: t(2) };
+        konst::destructure! {Braced{a, b: _, c} = v}
+        ledger::mark("after");
+        vec![a.received().id, c.received().id]
+    });
+    case!("Braced{a: x, b: y, c: z} renamed", vec![0, 1, 2], vec![], {
+        let v = Braced { a: t(0), b: t(1), c: t(2) };
+        konst::destructure! {Braced{a: x, b: y, c: z} = v}
+        ledger::mark("after");
+        vec![x.received().id, y.received().id, z.received().id]
+    });
+    case!("Tup(a, _, c)", vec![0, 2], vec![1], {
+        let v = Tup(t(0), t(1), t(2));
+        konst::destructure! {Tup(a, _, c) = v}
+        ledger::mark("after");
+        vec![a.received().id, c.received().id]
+    });
+    case!("(a, b, c, d) tuple", vec![0, 1, 2, 3], vec![], {
+        let v = (t(0), t(1), t(2), t(3));
+        konst::destructure! {(a, b, c, d) = v}
+        ledger::mark("after");
+        vec![a.received().id, b.received().id, c.received().id, d.received().id]
+    });
+    case!("(a,) 1-tuple", vec![0], vec![], {
+        let v = (t(0),);
+        konst::destructure! {(a,) = v}
+        ledger::mark("after");
+        vec![a.received().id]
+    });
+    case!("(_, b) tuple", vec![1], vec![0], {
+        let v = (t(0), t(1));
+        konst::destructure! {(_, b) = v}
+        ledger::mark("after");
+        vec![b.received().id]
+    });
+    case!("[a, b, c] array", vec![0, 1, 2], vec![], {
+        let v = [t(0), t(1), t(2)];
+        konst::destructure! {[a, b, c] = v}
+        ledger::mark("after");
+        vec![a.received().id, b.received().id, c.received().id]
+    });
+    case!("[a, .., e] array", vec![0, 4], vec![1, 2, 3], {
+        let v = [t(0), t(1), t(2), t(3), t(4)];
+        konst::destructure! {[a, .., e] = v}
+        ledger::mark("after");
+        vec![a.received().id, e.received().id]
+    });
+    case!("[a, rest @ .., e] array", vec![0, 1, 2, 3, 4], vec![], {
+        let v = [t(0), t(1), t(2), t(3), t(4)];
+        konst::destructure! {[a, rest @ .., e] = v}
+        ledger::mark("after");
+        let rest: [Tok; 3] = rest;
+        let mut out = vec![a.received().id];
+        for x in rest {
+            out.push(x.received().id);
+        }
+        out.push(e.received().id);
+        out
+    });
+    case!("[_, b, ..] array", vec![1], vec![0, 2, 3], {
+        let v = [t(0), t(1), t(2), t(3)];
+        konst::destructure! {[_, b, ..] = v}
+        ledger::mark("after");
+        vec![b.received().id]
+    });
+    case!("[.., d] array", vec![3], vec![0, 1, 2], {
+        let v = [t(0), t(1), t(2), t(3)];
+        konst::destructure! {[.., d] = v}
+        ledger::mark("after");
+        vec![d.received().id]
+    });
+    case!("[] empty array", vec![], vec![], {
+        let v: [Tok; 0] = [];
+        konst::destructure! {[] = v}
+        ledger::mark("after");
+        vec![]
+    });
+    case!("Packed{x, a, y, b} repr(C,packed)", vec![0, 1, 7, 300], vec![], {
+        let v = Packed { x: 7, a: t(0), y: 300, b: t(1) };
+        konst::destructure! {Packed{x, a, y, b} = v}
+        ledger::mark("after");
+        vec![a.received().id, b.received().id, x as u32, y as u32]
+    });
+    case!("Packed{x: _, a: _, y, b} repr(C,packed)", vec![1, 300], vec![0], {
+        let v = Packed { x: 7, a: t(0), y: 300, b: t(1) };
+        konst::destructure! {Packed{x: _, a: _, y, b} = v}
+        ledger::mark("after");
+        vec![b.received().id, y as u32]
+    });
+    case!("Gen::<Tok,(Tok,Tok)>{t, u, z} generic + nested", vec![0, 1, 2], vec![], {
+        let v = Gen { t: t(0), u: (t(1), t(2)), z: () };
+        konst::destructure! {Gen::<Tok, (Tok, Tok)>{t: tt, u, z: _} = v}
+        ledger::mark("after");
+        konst::destructure! {(u0, u1) = u}
+        vec![tt.received().id, u0.received().id, u1.received().id]
+    });
+    case!("(a, b): (Tok, Tok) annotated", vec![0, 1], vec![], {
+        let v = (t(0), t(1));
+        konst::destructure! {(a, b): (Tok, Tok) = v}
+        ledger::mark("after");
+        vec![a.received().id, b.received().id]
+    });
+    case!("12-tuple", (0..12).collect(), vec![], {
+        let v = (t(0), t(1), t(2), t(3), t(4), t(5), t(6), t(7), t(8), t(9), t(10), t(11));
+        konst::destructure! {(a, b, c, d, e, f, g, h, i, j, k, l) = v}
+        ledger::mark("after");
+        [a, b, c, d, e, f, g, h, i, j, k, l].into_iter().map(|x| x.received().id).collect()
+    });
+    r
+}
+
+/// Copy-type consumers/builders: `copy()` gives an independent value with the same future
+fn copy_types(cfg: &Cfg) -> Report {
+    let mut r = Report::new();
+    if !cfg.mine(0) {
+        return r;
+    }
+    let mut c = ArrayConsumer::new([10u32, 20, 30, 40]);
+    let _ = c.next();
+    let mut c2 = c.copy();
+    let a: Vec<u32> = std::iter::from_fn(|| c.next().map(ManuallyDrop::into_inner)).collect();
+    let b: Vec<u32> = std::iter::from_fn(|| c2.next_back().map(ManuallyDrop::into_inner)).collect();
+    r.ev("consumer.copy");
+    if a != [20, 30, 40] || b != [40, 30, 20] {
+        r.fail("C15:consumer-copy", "ArrayConsumer::copy", "[10,20,30,40] next, copy".into(), format!("{:?} {:?}", a, b), "[20,30,40] [40,30,20]".into());
+    }
+    let mut b1: ArrayBuilder<u8, 3> = ArrayBuilder::new();
+    b1.push(1);
+    let mut b2 = b1.copy();
+    b1.push(2);
+    b1.push(3);
+    b2.push(9);
+    b2.push(8);
+    r.ev("builder.copy");
+    if b1.build() != [1, 2, 3] || b2.build() != [1, 9, 8] {
+        r.fail("C15:builder-copy", "ArrayBuilder::copy", "push 1, copy".into(), "mismatch".into(), "[1,2,3] [1,9,8]".into());
+    }
+    r
+}
+
+pub fn run(cfg: &Cfg) -> (&'static str, Report, String, String) {
+    // sanitizer engines must see the real double free; native runs keep the harness alive to report it
+    ledger::set_protect(!(cfg.miri() || std::env::var_os("KV_RAW_DROPS").is_some()));
+    let mut rep = consumer_histories(cfg);
+    rep.merge(builder_histories(cfg, false));
+    rep.merge(map_by_value(cfg));
+    rep.merge(destructure_shapes(cfg));
+    rep.merge(copy_types(cfg));
+    (
+        "C15",
+        rep,
+        format!("all ArrayConsumer histories over {{next, next_back, as_slice, as_mut_slice+replace, clone+drop, clone+switch}} up to depth N+{} for N in 0..={} x ends {{drop, assert_is_empty, forget after emptying}}; all ArrayBuilder histories over {{push, as_slice, as_mut_slice+replace, len/is_full, clone+drop, clone+switch}} to the same depth x ends {{build, drop}}; map_!/from_fn_! for N in {{0,1,2,3,5}} with complete, panicking and early-returning closures at every position; 18 hand-written destructure! shapes", cfg.by(1, 3, 3), cfg.by(2, 3, 4)),
+        "one evaluation = one operation on a by-value API over ledger elements (unique id, checksummed payload, heap guard), checked against a sequential model (which element comes out, slice contents, clone provenance, panic/no panic) and, at quiescence, the conservation audit of the event log: every created or cloned id dropped exactly once, handed out at most once, never corrupted, nothing leaked on a non-panicking path, `_`/`..` elements dropped before the next statement; non-trivial = distinct histories mixing front and back takes (consumer), histories whose number of pushes differs from N (builder), each panicking/returning closure position, each destructure shape".into(),
+    )
+}
